@@ -293,11 +293,33 @@ func init() {
 				}
 			})
 		}
+		// Part 2d: deep chains in every unit (the same depth is 1 ... 8 times as many columns)
+		for _, depth := range []int{13, 26, 51, 60} {
+			if !c.Take() || c.Expired() {
+				continue
+			}
+			var d []int
+			var names []string
+			for l := 1; l <= depth; l++ {
+				d = append(d, l)
+				names = append(names, fmt.Sprintf("n%d", l))
+			}
+			d = append(d, 2)
+			names = append(names, "tail")
+			cn := &c15Canon{doc: enum.Spell(d, names, enum.Canonical), out: map[string]string{}, roots: 1}
+			c.StateN(1)
+			c.Inc("deep_chain_cases")
+			for ui, unit := range c15Units {
+				idx++
+				c15Check(c, cn, d, names, enum.Spelling{Unit: unit, Bullets: []byte("-+"), Heading: ui%2 == 1, CRLF: ui%3 == 0}, idx*16)
+			}
+		}
 		// Part 3: hostile names at n <= 2, full product (names with bullets or '#' at their edges, blanks inside)
 		{
-			host := []string{"x y", "C#", "#inc"}
+			// (incl. names made of bullet characters only: with the same character as bullet such a row looks like a rule)
+			host := []string{"x y", "C#", "#inc", "--", "- -", "**"}
 			if c.Thorough() {
-				host = []string{"x y", "+x*", "é", "- q", "C#", "#inc", "a#b", "*"}
+				host = []string{"x y", "+x*", "é", "- q", "C#", "#inc", "a#b", "*", "--", "- -", "**", "---", "++", "* * *", "__"}
 			}
 			for n := 1; n <= 2 && !c.Expired(); n++ {
 				enum.DepthSeqs(n, func(d0 []int) {
